@@ -2,7 +2,7 @@
 # Re-run the targeted quick check against every kept seeded change (scratch copy of /repo/src + patch, PYGOM_SRC) and write
 # seeded/RESULTS.md.  Expected: every line "caught" (exit 1 with a VIOLATION line).  Not a registered check.
 cd "$(dirname "$0")/.." || exit 3
-out=seeded/RESULTS.md
+out=${OUT:-seeded/RESULTS.md}
 echo "# Seeded changes against the current checks (quick tier, VERIF_SEED=${VERIF_SEED:-0}, /repo at $(git -C /repo rev-parse --short HEAD), /verif at $(git rev-parse --short HEAD))" > $out
 echo >> $out; echo "| seeded change | check | verdict | first witness |" >> $out; echo "|---|---|---|---|" >> $out
 for d in seeded/C*/; do
